@@ -16,7 +16,7 @@ def unh(h):
 
 def run_p(seed, tier, replay=None):
     n = 300 if tier == "quick" else 6000
-    r = common.run_streams([("p_archive", ["aval", seed, n]), ("p_archive", ["host", seed, max(60, n // 3)]), ("p_archive", ["aarch", seed, n // 2])])
+    r = common.run_streams([("p_archive", ["aval", seed, n, vlib.BUILD + "/archive-tmp/aval"]), ("p_archive", ["host", seed, max(60, n // 3), vlib.BUILD + "/archive-tmp/host"]), ("p_archive", ["aarch", seed, n // 2, vlib.BUILD + "/archive-tmp/aarch"])])
     items = [([b, args, idx], req, impl) for (b, args, idx, req, impl) in r.cases]
     mism, monf = common.compare(items, None)
     violations = []
